@@ -1,4 +1,375 @@
 package main
 
-func genC06(out string, n int)          { panic("C06 not built yet") }
-func replayC06(data []byte, out string) { panic("C06 not built yet") }
+import (
+	"bufio"
+	"bytes"
+	"encoding/json"
+	"fmt"
+	"io"
+	"math/rand"
+	"net/netip"
+	"os"
+	"path/filepath"
+	"strings"
+
+	"github.com/jech/storrent/pex"
+	"github.com/jech/storrent/protocol"
+
+	"verifharness/internal/cq"
+)
+
+// mspec is a JSON-serialisable description of one message (for replay).
+type mspec struct {
+	T              string           `json:"t"`
+	Sub            uint8            `json:"sub,omitempty"`
+	A, B, C        uint32           `json:"a,omitempty"`
+	Data           string           `json:"data,omitempty"` // encodeInput form
+	Ver            string           `json:"ver,omitempty"`
+	IP4            string           `json:"ip4,omitempty"`
+	IP6            string           `json:"ip6,omitempty"`
+	Msgs           map[string]uint8 `json:"msgs,omitempty"`
+	UO, Enc        bool             `json:"uo,omitempty"`
+	Added, Dropped []pspec          `json:"added,omitempty"`
+}
+type pspec struct {
+	Addr  string `json:"addr"`
+	Flags byte   `json:"flags"`
+}
+
+type scase struct {
+	ID    int     `json:"id"`
+	Msgs  []mspec `json:"msgs"`
+	Cut   string  `json:"cut"`
+	CutSd int64   `json:"cutseed"`
+	Obs   string  `json:"obs,omitempty"`
+}
+
+func (s mspec) build() protocol.Message {
+	data := func() []byte { return append([]byte(nil), decodeInput(s.Data)...) }
+	switch s.T {
+	case "KeepAlive":
+		return protocol.KeepAlive{}
+	case "Choke":
+		return protocol.Choke{}
+	case "Unchoke":
+		return protocol.Unchoke{}
+	case "Interested":
+		return protocol.Interested{}
+	case "NotInterested":
+		return protocol.NotInterested{}
+	case "HaveAll":
+		return protocol.HaveAll{}
+	case "HaveNone":
+		return protocol.HaveNone{}
+	case "Have":
+		return protocol.Have{Index: s.A}
+	case "SuggestPiece":
+		return protocol.SuggestPiece{Index: s.A}
+	case "AllowedFast":
+		return protocol.AllowedFast{Index: s.A}
+	case "Request":
+		return protocol.Request{Index: s.A, Begin: s.B, Length: s.C}
+	case "Cancel":
+		return protocol.Cancel{Index: s.A, Begin: s.B, Length: s.C}
+	case "RejectRequest":
+		return protocol.RejectRequest{Index: s.A, Begin: s.B, Length: s.C}
+	case "Port":
+		return protocol.Port{Port: uint16(s.A)}
+	case "Bitfield":
+		return protocol.Bitfield{Bitfield: data()}
+	case "Piece":
+		return protocol.Piece{Index: s.A, Begin: s.B, Data: data()}
+	case "ExtendedDontHave":
+		return protocol.ExtendedDontHave{Subtype: s.Sub, Index: s.A}
+	case "ExtendedMetadata":
+		return protocol.ExtendedMetadata{Subtype: s.Sub, Type: uint8(s.A), Piece: s.B, TotalSize: s.C, Data: data()}
+	case "Extended0":
+		m := protocol.Extended0{Version: s.Ver, Port: uint16(s.A), ReqQ: s.B, MetadataSize: s.C,
+			Messages: s.Msgs, UploadOnly: s.UO, Encrypt: s.Enc}
+		if s.IP4 != "" {
+			m.IPv4 = netip.MustParseAddr(s.IP4)
+		}
+		if s.IP6 != "" {
+			m.IPv6 = netip.MustParseAddr(s.IP6)
+		}
+		return m
+	case "ExtendedPex":
+		conv := func(ps []pspec) []pex.Peer {
+			var out []pex.Peer
+			for _, p := range ps {
+				out = append(out, pex.Peer{Addr: netip.MustParseAddrPort(p.Addr), Flags: p.Flags})
+			}
+			return out
+		}
+		return protocol.ExtendedPex{Subtype: s.Sub, Added: conv(s.Added), Dropped: conv(s.Dropped)}
+	}
+	panic("unknown mspec " + s.T)
+}
+
+var b32 = []uint32{0, 1, 2, 255, 256, 65535, 65536, 16384, 16383, 1 << 24, 1<<31 - 1, 1 << 31, 1<<32 - 1, 0x01020304, 0xfffefdfc}
+
+func r32(r *rand.Rand) uint32 {
+	if r.Intn(2) == 0 {
+		return b32[r.Intn(len(b32))]
+	}
+	return r.Uint32()
+}
+
+func rdata(r *rand.Rand, n int) string {
+	if n > 300 {
+		d := make([]byte, n)
+		fill := byte(r.Intn(256))
+		for i := range d {
+			d[i] = fill
+		}
+		d[0], d[n-1] = byte(r.Intn(256)), byte(r.Intn(256))
+		return encodeInput(d)
+	}
+	return encodeInput(rbytes(r, n))
+}
+
+func raddr(r *rand.Rand) string {
+	if r.Intn(2) == 0 {
+		return netip.AddrFrom4([4]byte(rbytes(r, 4))).String()
+	}
+	return ""
+}
+
+func rpeers(r *rand.Rand) []pspec {
+	var out []pspec
+	for i := r.Intn(5); i > 0; i-- {
+		var a netip.Addr
+		if r.Intn(2) == 0 {
+			a = netip.AddrFrom4([4]byte(rbytes(r, 4)))
+		} else {
+			a = netip.AddrFrom16([16]byte(rbytes(r, 16)))
+		}
+		out = append(out, pspec{netip.AddrPortFrom(a, uint16(r.Intn(65536))).String(), byte(r.Intn(256))})
+	}
+	return out
+}
+
+var mtypes = []string{"KeepAlive", "Choke", "Unchoke", "Interested", "NotInterested", "HaveAll", "HaveNone",
+	"Have", "SuggestPiece", "AllowedFast", "Request", "Cancel", "RejectRequest", "Port", "Bitfield", "Piece",
+	"ExtendedDontHave", "ExtendedMetadata", "Extended0", "ExtendedPex"}
+
+func rmspec(r *rand.Rand, t string) mspec {
+	s := mspec{T: t}
+	// the sub-id used when sending is the one the remote peer announced: usually
+	// storrent's own numbering, sometimes anything in 1..255
+	own := map[string]uint8{"ExtendedPex": protocol.ExtPex, "ExtendedMetadata": protocol.ExtMetadata, "ExtendedDontHave": protocol.ExtDontHave}
+	if o, ok := own[t]; ok {
+		s.Sub = o
+		if r.Intn(4) == 0 {
+			s.Sub = uint8(1 + r.Intn(255))
+		}
+	}
+	switch t {
+	case "Have", "SuggestPiece", "AllowedFast", "ExtendedDontHave":
+		s.A = r32(r)
+	case "Request", "Cancel", "RejectRequest":
+		s.A, s.B, s.C = r32(r), r32(r), r32(r)
+	case "Port":
+		s.A = uint32([]int{0, 1, 255, 256, 6881, 65535, r.Intn(65536)}[r.Intn(7)])
+	case "Bitfield":
+		s.Data = rdata(r, []int{0, 1, 2, 8, 9, 100, 5000}[r.Intn(7)])
+	case "Piece":
+		s.A, s.B = r32(r), r32(r)
+		sz := []int{0, 1, 100, 16383, 16384, 16385, 300, 17}[r.Intn(8)]
+		if r.Intn(25) == 0 {
+			sz = []int{32768, 65536}[r.Intn(2)]
+		}
+		s.Data = rdata(r, sz)
+	case "ExtendedMetadata":
+		s.A = uint32(r.Intn(3))
+		s.B = r32(r)
+		if r.Intn(2) == 0 {
+			s.C = r32(r)
+		}
+		s.Data = rdata(r, []int{0, 0, 1, 100, 16384, 5000}[r.Intn(6)])
+	case "Extended0":
+		if r.Intn(3) != 0 {
+			s.Ver = []string{"storrent 0.0", "x", "é\x00<>", strings.Repeat("v", 300)}[r.Intn(4)]
+		}
+		s.A = uint32([]int{0, 0, 1, 6881, 65535}[r.Intn(5)])
+		s.B = []uint32{0, 0, 1, 250, 1<<32 - 1}[r.Intn(5)]
+		s.C = []uint32{0, 0, 1, 16384, 49999, 1<<32 - 1}[r.Intn(6)]
+		s.IP4 = raddr(r)
+		if r.Intn(2) == 0 {
+			s.IP6 = netip.AddrFrom16([16]byte(rbytes(r, 16))).String()
+		}
+		if r.Intn(3) != 0 {
+			s.Msgs = map[string]uint8{}
+			names := []string{"ut_pex", "ut_metadata", "lt_donthave", "upload_only", "zz", "", "a"}
+			for i := r.Intn(6); i > 0; i-- {
+				s.Msgs[names[r.Intn(len(names))]] = uint8(r.Intn(256))
+			}
+		}
+		s.UO = r.Intn(2) == 0
+		s.Enc = r.Intn(2) == 0
+	case "ExtendedPex":
+		s.Added = rpeers(r)
+		s.Dropped = rpeers(r)
+	}
+	return s
+}
+
+func runC06(c *scase) (coq string, distinctKey string, nontrivial bool) {
+	var buf bytes.Buffer
+	w := bufio.NewWriter(&buf)
+	var rendered []string
+	var key []string
+	nt := false
+	for _, s := range c.Msgs {
+		m := s.build()
+		rs, cl := renderMsg(s.build())
+		rendered = append(rendered, rs)
+		key = append(key, cl)
+		if s.Data != "" || s.A != 0 || s.Ver != "" || len(s.Added) > 0 || len(s.Dropped) > 0 || len(s.Msgs) > 0 {
+			nt = true
+		}
+		if err := protocol.Write(w, m, nil); err != nil {
+			panic(err)
+		}
+	}
+	w.Flush()
+	written := append([]byte(nil), buf.Bytes()...)
+	cr := &cutReader{data: written, mode: c.Cut, rnd: rand.New(rand.NewSource(c.CutSd))}
+	br := bufio.NewReader(cr)
+	var read []string
+	clean := true
+	for {
+		m, err := protocol.Read(br, nil)
+		if err == io.EOF {
+			break
+		}
+		if err != nil || m == nil {
+			clean = false
+			break
+		}
+		rs, _ := renderMsg(m)
+		read = append(read, rs)
+	}
+	c.Obs = fmt.Sprintf("written=%d bytes read=%d msgs clean=%v", len(written), len(read), clean)
+	coq = fmt.Sprintf("{| s_id := %d; s_msgs := %s; s_written := %s; s_read := %s; s_clean := %s |}",
+		c.ID, cq.List(rendered), cq.Bytes(written), cq.List(read), cq.Bool(clean))
+	return coq, strings.Join(key, ",") + "/" + c.Cut, nt
+}
+
+func finishC06(cases []*scase, out string) {
+	kinds := map[string]int{}
+	lens := map[string]int{}
+	distinct := map[string]bool{}
+	jf, _ := os.Create(filepath.Join(out, "cases.jsonl"))
+	defer jf.Close()
+	var shard []string
+	nshard := 0
+	flush := func() {
+		if len(shard) == 0 {
+			return
+		}
+		var sb strings.Builder
+		sb.WriteString("From Storrent Require Import Base.Bytes Base.Bencode Model.Wire Model.WireSpec Check.WireCheck Check.WireSpecCheck.\nOpen Scope N_scope.\n")
+		sb.WriteString("Definition cases : list scase := [\n" + strings.Join(shard, ";\n") + "\n].\n")
+		sb.WriteString("Definition BC := Eval vm_compute in bad_corr6 cases.\nDefinition BM := Eval vm_compute in bad_monitor6 cases.\nPrint BC. Print BM.\n")
+		if len(shard) == 1 {
+			sb.WriteString("Definition SPEC := Eval vm_compute in map (fun c => concat (map encode_spec (s_msgs c))) cases.\nPrint SPEC.\n")
+		}
+		os.WriteFile(filepath.Join(out, fmt.Sprintf("shard%03d.v", nshard)), []byte(sb.String()), 0o644)
+		nshard++
+		shard = nil
+	}
+	var samples []*scase
+	size := 0
+	for _, c := range cases {
+		coq, key, nt := runC06(c)
+		for _, m := range c.Msgs {
+			kinds[m.T]++
+		}
+		switch n := len(c.Msgs); {
+		case n == 1:
+			lens["1"]++
+		case n <= 5:
+			lens["2-5"]++
+		default:
+			lens["6-50"]++
+		}
+		if nt {
+			distinct[key] = true
+		}
+		b, _ := json.Marshal(c)
+		jf.Write(append(b, '\n'))
+		shard = append(shard, coq)
+		size += len(coq)
+		if len(shard) >= 40 || size > 1<<18 {
+			flush()
+			size = 0
+		}
+		if len(samples) < 5 && (c.ID%53 == 7 || len(cases) < 5) {
+			samples = append(samples, c)
+		}
+	}
+	flush()
+	meta := map[string]interface{}{
+		"evaluations":         len(cases),
+		"distinct_nontrivial": len(distinct),
+		"rule":                "one evaluation = one stream of 1..50 messages written by protocol.Write, compared byte for byte with the independent encoder and read back by protocol.Read under one cut pattern; distinct non-trivial = new (sequence of message types, cut pattern) with at least one non-empty payload or non-zero field",
+		"message_types":       kinds,
+		"stream_lengths":      lens,
+		"samples":             samples,
+		"shards":              nshard,
+	}
+	b, _ := json.MarshalIndent(meta, "", " ")
+	os.WriteFile(filepath.Join(out, "meta.json"), b, 0o644)
+}
+
+func genC06(out string, n int) {
+	r := cq.Rand()
+	var cases []*scase
+	add := func(ms []mspec, cut string) {
+		cases = append(cases, &scase{ID: len(cases), Msgs: ms, Cut: cut, CutSd: r.Int63()})
+	}
+	cuts := []string{"all", "one", "seven", "rand"}
+	// every type alone, several values, every cut mode for small ones
+	for _, t := range mtypes {
+		for k := 0; k < 6; k++ {
+			add([]mspec{rmspec(r, t)}, cuts[k%4])
+		}
+	}
+	big := rmspec(r, "Piece")
+	big.Data = rdata(r, 1<<20-9) // the largest frame the decoder accepts
+	add([]mspec{big}, "rand")
+	// streams
+	for i := 0; i < n; i++ {
+		k := 2 + r.Intn(8)
+		if r.Intn(10) == 0 {
+			k = 20 + r.Intn(30)
+		}
+		var ms []mspec
+		for j := 0; j < k; j++ {
+			t := mtypes[r.Intn(len(mtypes))]
+			s := rmspec(r, t)
+			if k > 10 && len(s.Data) > 2000 {
+				s.Data = rdata(r, 50)
+			}
+			ms = append(ms, s)
+		}
+		add(ms, cuts[r.Intn(4)])
+	}
+	finishC06(cases, out)
+}
+
+func replayC06(data []byte, out string) {
+	var c scase
+	var wrap struct {
+		Case scase `json:"case"`
+	}
+	if json.Unmarshal(data, &wrap) == nil && len(wrap.Case.Msgs) > 0 {
+		c = wrap.Case
+	} else if err := json.Unmarshal(data, &c); err != nil {
+		fmt.Fprintln(os.Stderr, err)
+		os.Exit(2)
+	}
+	c.ID = 0
+	finishC06([]*scase{&c}, out)
+}
